@@ -58,7 +58,7 @@ Inductive event :=
 (* internal (ghost) events *)
 | EEnq (a : aid) | EEnqExit | EDeq (i : item aid) | EDisc | EDrop (a : aid) | EReject (a : aid)
 | ESubNew (sid : N) | ESubDrop (sid : N) | ESubSend (sid : N) (a : aid) | ESubRecv (sid : N) (a : aid)
-| EWrite (a : aid) (s : State) | ESnapshot (a : aid) (l : list N)
+| EWrite (a : aid) (s : State) | ESnapshot (a : aid) (s : State) (snap : list subentry)
 | EReduced (a : aid) | ESpawn (k : N) (t : N) | ESpawnSkipped (k : N) | ETakePool | EPanic (t : N).
 
 (* ---------------- program counters ---------------- *)
@@ -555,7 +555,7 @@ Definition step_reducer (w : world) (pc : rpc) : option world :=
   | RSnapshot a s =>
       if subs_free w then
         let snap := w_subs w in
-        Some (after_notify (emit w (ESnapshot a (map se_id snap))) a s snap (length snap))
+        Some (after_notify (emit w (ESnapshot a s snap)) a s snap (length snap))
       else None
   | RNotify a s rest n =>
       match rest with
